@@ -61,6 +61,8 @@ func validatorSources() []vsrc {
 		{"tag nonzero on regexp", one("X", "x", "nonzero", ptd("regexp")), tvS(&gen.TV{S: "a+"}), tvS(&gen.TV{S: ""}), objOf("x", gen.Str("a+")), objOf("x", gen.Str(""))},
 		{"tag required on []struct", one("X", "x", "required", &gen.TD{Kind: "slice", Elem: one("Y", "y", "", ptd("int"))}), tvS(tvS(tvS(tvI(0)))), tvS(tvS()), objOf("x", gen.List(objOf("y", num(1)))), objOf("x", gen.List())},
 		{"tag nonzero on map of struct", one("X", "x", "nonzero", &gen.TD{Kind: "map", Elem: one("Y", "y", "", ptd("int"))}), tvS(&gen.TV{Keys: []string{"k"}, Elems: []*gen.TV{tvS(tvI(0))}}), tvS(&gen.TV{Keys: []string{}, Elems: []*gen.TV{}}), objOf("x", objOf("k", objOf("y", num(1)))), objOf("x", gen.Obj())},
+		{"tag nonzero on *map", one("X", "x", "nonzero", tdOf("ptr", tdOf("map", ptd("int")))), tvS(tvPtr(&gen.TV{Keys: []string{"k"}, Elems: []*gen.TV{tvI(1)}})), tvS(tvPtr(&gen.TV{Keys: []string{}, Elems: []*gen.TV{}})), objOf("x", objOf("k", num(1))), objOf("x", gen.Obj())},
+		{"tag required on *[]struct", one("X", "x", "required", tdOf("ptr", tdOf("slice", one("Y", "y", "", ptd("int"))))), tvS(tvPtr(tvS(tvS(tvI(0))))), tvS(tvPtr(tvS())), objOf("x", gen.List(objOf("y", num(1)))), objOf("x", gen.List())},
 		{"tag required on [1]struct", one("X", "x", "required", &gen.TD{Kind: "array", N: 1, Elem: one("Y", "y", "", ptd("int"))}), tvS(tvS(tvS(tvI(0)))), nil, objOf("x", gen.List(objOf("y", num(1)))), nil},
 		{"Validate (value receiver)", ptd("cat:c04_vs"), tvS(tvI(1), &gen.TV{}), tvS(tvI(-1), &gen.TV{}), objOf("x", num(1)), objOf("x", num(-1))},
 		{"Validate (pointer receiver)", ptd("cat:c04_pv"), tvS(tvI(1), tvI(0)), tvS(tvI(13), tvI(0)), objOf("n", num(1)), objOf("d", gen.Str("-1s"))},
@@ -237,7 +239,7 @@ func hasNilVal(t *gen.Tree) bool {
 
 var subGrid = runlog.Register(&runlog.Sub[Case]{
 	Name: "placement-grid",
-	Rule: "deterministic cross product: 22 validator sources (each documented tag on each kind it is defined for, incl. duration parameters, tags on pointers, regexps and collections of structs; Validate() with value and pointer receiver on structs, named ints, slices and maps; InitDefaults types whose defaults are valid or invalid) x 15 placements (direct, *T, **T, nested, pointer to nested, inline, []T, [2]T, map[string]T, []*T, map[string]*T, *[]T, *map[string]T, *[2]T, [][]T) x pre-filled value (zero / valid / invalid; for collections two elements with the invalid one first or last) x configuration (absent, nil, valid, invalid, empty container, partial mention of a collection, another key) x delivery (literal / whole setting through ${r0}); same oracle as the random search. Non-trivial and distinct as there. The enumeration is complete for this finite product.",
+	Rule: "deterministic cross product: 24 validator sources (each documented tag on each kind it is defined for, incl. duration parameters, tags on pointers, regexps and collections of structs; Validate() with value and pointer receiver on structs, named ints, slices and maps; InitDefaults types whose defaults are valid or invalid) x 15 placements (direct, *T, **T, nested, pointer to nested, inline, []T, [2]T, map[string]T, []*T, map[string]*T, *[]T, *map[string]T, *[2]T, [][]T) x pre-filled value (zero / valid / invalid; for collections two elements with the invalid one first or last) x configuration (absent, nil, valid, invalid, empty container, partial mention of a collection, another key) x delivery (literal / whole setting through ${r0}); same oracle as the random search. Non-trivial and distinct as there. The enumeration is complete for this finite product.",
 	Enum: enumGrid,
 	Run:  runCase,
 })
